@@ -141,41 +141,69 @@ Proof. exact force_view. Qed.
 Print Assumptions C04_proxy_view_force.
 
 (* ---- automatically generated tokens of different proxies differ ------------------------------ *)
-(* [cid] identifies the context INSTANCE (two client contexts may share [cname]); trusted: distinct
-   instances have distinct cid (a 64-bit random nonce per instance in the repaired code). *)
+(* A context instance is (iid, nonce, cname): iid = which QMI_Context object (it owns the counter and is
+   invisible in tokens), nonce = the per-instance value drawn by the constructor (an INPUT of the
+   generator), cname = the context name (client contexts may share it).
+   [nonces_ok cfg] (Proofs.v) is the hypothesis about the constructor:
+       forall p q, cname (cfg p) = cname (cfg q) -> nonce (cfg p) = nonce (cfg q) -> iid (cfg p) = iid (cfg q)
+   i.e. two DISTINCT same-named instances never carry the same nonce.  It is not provable (the nonce is
+   drawn outside the model, from the operating system's entropy source); the tie checks it against the
+   real constructor, in particular with every other ambient source equalised (same PRNG seed, clock, pid,
+   thread) for the instances compared. *)
 Theorem C04_tokens_distinct : forall c1 n1 c2 n2,
-  (cid c1 <> cid c2 \/ n1 <> n2) -> gen_token c1 n1 <> gen_token c2 n2.
+  (cname c1 <> cname c2 \/ nonce c1 <> nonce c2 \/ n1 <> n2) -> gen_token c1 n1 <> gen_token c2 n2.
 Proof. exact gen_token_distinct. Qed.
 Print Assumptions C04_tokens_distinct.
 
-(* over every client history, any placement of proxies in context instances: all generated tokens
-   are pairwise different *)
-Theorem C04_generated_nodup : forall cfg ops s, NoDup (generated gen_token cfg s ops).
-Proof. exact (fun cfg ops s => generated_nodup cfg ops s). Qed.
+(* same-named instances: tokens coincide exactly when nonce AND counter value coincide — so the first
+   tokens of two same-named contexts (both counters at 1) differ iff their nonces differ *)
+Theorem C04_tokens_same_name : forall c1 c2 n1 n2,
+  cname c1 = cname c2 -> (gen_token c1 n1 = gen_token c2 n2 <-> nonce c1 = nonce c2 /\ n1 = n2).
+Proof. exact gen_token_same_name. Qed.
+Print Assumptions C04_tokens_same_name.
+
+(* over every client history, any placement of proxies in context instances whose nonces are ok:
+   all generated tokens are pairwise different *)
+Theorem C04_generated_nodup : forall cfg ops s,
+  nonces_ok cfg -> NoDup (generated gen_token cfg s ops).
+Proof. exact (fun cfg ops s H => generated_nodup cfg ops H s). Qed.
 Print Assumptions C04_generated_nodup.
 
 (* ... no two proxies ever remember the same automatic token ... *)
 Theorem C04_auto_tokens_unique : forall cfg ops p q t,
+  nonces_ok cfg ->
   let s := fst (prun gen_token cfg init_pst ops) in
   p <> q -> ptok (psys s) p = Some t -> is_auto t = true -> ptok (psys s) q <> Some t.
-Proof.
-  exact (fun cfg ops p q t => pi_uniq _ (prun_pinv cfg ops init_pst init_pinv) p q t).
-Qed.
+Proof. exact auto_tokens_unique. Qed.
 Print Assumptions C04_auto_tokens_unique.
 
 (* ... hence while an automatic token owns the object, calls through every other proxy — same
    context, other context, other context with the same name — are refused and change nothing *)
 Theorem C04_auto_lock_exclusive : forall cfg ops p q t x,
+  nonces_ok cfg ->
   let s := fst (prun gen_token cfg init_pst ops) in
   owner (psys s) = Some t -> is_auto t = true -> ptok (psys s) p = Some t -> q <> p ->
   pstep gen_token cfg s (PCall q x) = (s, OutExec false).
 Proof. exact auto_lock_exclusive. Qed.
 Print Assumptions C04_auto_lock_exclusive.
 
-(* FALSE of the faithful transcription of the current tree (token = context NAME + counter):
-   DESIGN.md section 8, defect 2 *)
+(* the hypothesis is NECESSARY: two distinct same-named instances that drew the SAME nonce (e.g. from an
+   equally seeded pseudo-random generator) both obtain the lock and both get their calls executed *)
+Theorem C04_equal_nonces_refuted :
+  exists cfg ops p q t,
+    let s := fst (prun gen_token cfg init_pst ops) in
+    iid (cfg p) <> iid (cfg q) /\ cname (cfg p) = cname (cfg q) /\ nonce (cfg p) = nonce (cfg q) /\ p <> q /\
+    owner (psys s) = Some t /\ is_auto t = true /\ ptok (psys s) p = Some t /\ ptok (psys s) q = Some t /\
+    snd (prun gen_token cfg init_pst ops) = [OutBool true; OutBool true] /\
+    snd (pstep gen_token cfg s (PCall p 1)) = OutExec true /\
+    snd (pstep gen_token cfg s (PCall q 2)) = OutExec true.
+Proof. exact equal_nonces_break_exclusion. Qed.
+Print Assumptions C04_equal_nonces_refuted.
+
+(* FALSE of the faithful transcription of the tree BEFORE the repair (token = context NAME + counter,
+   no nonce at all): DESIGN.md section 8, defect 2 *)
 Theorem C04_tokens_distinct_refuted :
-  exists c1 c2 n, cid c1 <> cid c2 /\ gen_token_impl c1 n = gen_token_impl c2 n.
+  exists c1 c2 n, iid c1 <> iid c2 /\ gen_token_impl c1 n = gen_token_impl c2 n.
 Proof. exact gen_token_impl_collides. Qed.
 Print Assumptions C04_tokens_distinct_refuted.
 
@@ -183,7 +211,7 @@ Print Assumptions C04_tokens_distinct_refuted.
 Theorem C04_auto_lock_exclusive_refuted :
   exists cfg ops p q t,
     let s := fst (prun gen_token_impl cfg init_pst ops) in
-    cid (cfg p) <> cid (cfg q) /\ p <> q /\
+    iid (cfg p) <> iid (cfg q) /\ p <> q /\
     owner (psys s) = Some t /\ is_auto t = true /\ ptok (psys s) p = Some t /\ ptok (psys s) q = Some t /\
     snd (prun gen_token_impl cfg init_pst ops) = [OutBool true; OutBool true] /\
     snd (pstep gen_token_impl cfg s (PCall p 1)) = OutExec true /\
@@ -216,14 +244,19 @@ Proof.
   vm_compute. repeat split; try (intro H; inversion H; fail); try (intro H; exact H).
 Qed.
 
-(* same-named client contexts (cname 7), distinct instances: the second automatic lock is denied *)
+(* the nonce hypothesis is satisfiable by two same-named instances *)
+Example C04_example_nonces_ok : nonces_ok (cfg_of [mkCtx 1 11 7; mkCtx 2 12 7]).
+Proof. exact nonces_ok_example. Qed.
+
+(* same-named client contexts (cname 7), distinct instances and nonces: the second automatic lock is denied *)
 Example C04_example_same_name_clients :
-  snd (prun gen_token (cfg_of [mkCtx 1 7; mkCtx 2 7]) init_pst
+  snd (prun gen_token (cfg_of [mkCtx 1 11 7; mkCtx 2 12 7]) init_pst
          [PLock 0 None; PLock 1 None; PCall 0 1; PCall 1 2; PUnlock 1 None; PUnlock 0 None; PLock 1 None; PCall 1 3])
   = [OutBool true; OutBool false; OutExec true; OutExec false; OutBool false; OutBool true; OutBool true; OutExec true].
 Proof. vm_compute. reflexivity. Qed.
 
+(* proxies 0 and 2 live in the same instance (shared counter), proxy 1 in a same-named other instance *)
 Example C04_example_generated :
-  generated gen_token (cfg_of [mkCtx 1 7; mkCtx 2 7; mkCtx 1 7]) init_pst [PLock 0 None; PLock 1 None; PLock 2 None]
-  = [(7, TAuto 1 1); (7, TAuto 2 1); (7, TAuto 1 2)]%N.
+  generated gen_token (cfg_of [mkCtx 1 11 7; mkCtx 2 12 7; mkCtx 1 11 7]) init_pst [PLock 0 None; PLock 1 None; PLock 2 None]
+  = [(7, TAuto 11 1); (7, TAuto 12 1); (7, TAuto 11 2)]%N.
 Proof. vm_compute. reflexivity. Qed.
